@@ -20,7 +20,10 @@ REQUIRED = {t: ["oracle:C06.encode==reference", "oracle:C06.decode==reference",
 
 def plan(tier, seed):
     return plan_codec(tier, seed, ["C06"], scr_k=1 if tier == "quick" else 2,
-                      extra=[{"kind": "container-layout", "n": 400 if tier == "quick" else 20000}])
+                      extra=[{"kind": "container-layout", "n": 400 if tier == "quick" else 20000},
+                             {"kind": "container-layout", "n": 300 if tier == "quick" else 8000, "env": {"TZ": "Europe/Rome"}},
+                             {"kind": "container-layout", "n": 150 if tier == "quick" else 8000,
+                              "env": {"TZ": "America/Sao_Paulo"}}])
 
 
 def run_shard(desc, rec):
